@@ -72,6 +72,13 @@ pub fn metadata(m: &oracle::model::Meta) -> Metadata {
 
 pub fn builder<W: Write>(cfg: &Cfg, sink: W) -> MuxerBuilder<W> {
     let mut b = MuxerBuilder::new(sink).video(vcodec(cfg.codec), cfg.width, cfg.height, 30.0);
+    if let Some(d) = &cfg.audio_first {
+        // an earlier selection: the later call replaces it, AudioCodec::None withdraws it
+        b = b.audio(acodec(d.codec), d.rate, d.channels);
+        if cfg.audio.is_none() {
+            b = b.audio(muxide::api::AudioCodec::None, 0, 0);
+        }
+    }
     if let Some(a) = &cfg.audio {
         b = b.audio(acodec(a.codec), a.rate, a.channels);
     }
